@@ -50,7 +50,8 @@ REQUIRED_PROBES = ['corrupt_sa', 'corrupt_R', 'corrupt_T', 'corrupt_X', 'corrupt
                    'splice', 'misroute', 'honest_spend_accepted', 'extract',
                    'check_after_unrelated_derive', 'two_adapters_in_one_execution',
                    'neutral_tweak_point_offered', 'signature_extension_configured_by_prefix',
-                   'negated_adapter_scalar', 'negated_nonce_point'] + \
+                   'negated_adapter_scalar', 'negated_nonce_point',
+                   'tweak_point_equals_nonce_point'] + \
     ['variant_' + v for v in VARIANTS]
 
 
@@ -121,6 +122,9 @@ def gen_exchange(rng, cell):
           'keys': rng.choice(['bytes', 'bytes', 'object']), 'prefix': rng.choice(PREFIXES),
           'form': rng.choice(LOCK_FORMS), 'limits': rng.below(len(LIMITS)),
           'style': rng.choice(ARG_STYLES), 'twice': rng.chance(1, 4),
+          # the tweak scalar happens to be (is chosen to be) the signer's own nonce for
+          # this message, so that T == R: still a tweak scalar like any other
+          'tweak_is_nonce': rng.chance(1, 10),
           # one builder exchange in five runs under a signature-extension plugin that is
           # configured through the sign / witness script prefix
           'sigext': rng.choice([None, None, None, None, '01', '02', 'ff'])
@@ -275,6 +279,22 @@ class Ex:
                 self.ext_src = '@= sigext [ x%s ]' % spec['sigext']
                 self.ext_code = T.compile_script(self.ext_src)
                 self.m = sig_message(ext_fields(self.sf, self.ext), int(self.flags, 16))
+        self.tweak_is_nonce = False
+        if spec.get('tweak_is_nonce'):
+            # the library derives the nonce from (seed, message) alone and leaves it in
+            # the cache (b'r') unless that caching flag is off
+            try:
+                G = base_mult(int_to_scalar(1))
+                _, _, c0 = F.run_script(pb(self.seed) + pb(self.m) + pb(G) +
+                                        T.compile_script('make_adapter_sig_public'))
+                r = c0.get(b'r')
+            except LIB_ERRORS:
+                r = None
+            if isinstance(r, bytes) and len(r) == 32 and scalar_to_int(clamp255(r)) % L:
+                self.t = r
+                self.t_eff = scalar_to_int(clamp255(r)) % L
+                self.T = base_mult(int_to_scalar(self.t_eff))
+                self.tweak_is_nonce = True
         self.T_at_A = None
         self.sent = None            # (R, sa) as produced by A
         self.sent_for_T = None
@@ -436,6 +456,8 @@ def execute(plan, run):
     rng = Rng(plan['run_seed'] ^ 0x5eed)
     for e in exs.values():
         run.probe('variant_' + e.v)
+        if e.tweak_is_nonce:
+            run.probe('tweak_point_equals_nonce_point')
         tc = e.spec['tweak_class']
         if tc in ('one', 'Lm1', 'Lp1', 'bit255'):
             run.probe('edge_scalar_' + tc)
